@@ -89,17 +89,17 @@ type Violation struct {
 
 // Result is what a worker writes for the orchestrator.
 type Result struct {
-	Property     string             `json:"property"`
-	Shard        int                `json:"shard"`
-	Evaluations  int64              `json:"evaluations"`
-	Distinct     []uint64           `json:"distinct"`
-	Counters     map[string]int64   `json:"counters"`
+	Property     string              `json:"property"`
+	Shard        int                 `json:"shard"`
+	Evaluations  int64               `json:"evaluations"`
+	Distinct     []uint64            `json:"distinct"`
+	Counters     map[string]int64    `json:"counters"`
 	Sets         map[string][]string `json:"sets"`
-	Samples      []any              `json:"samples"`
-	Violations   []Violation        `json:"violations"`
-	Inconclusive []string           `json:"inconclusive"`
-	Notes        []string           `json:"notes"`
-	Completed    bool               `json:"completed"`
+	Samples      []any               `json:"samples"`
+	Violations   []Violation         `json:"violations"`
+	Inconclusive []string            `json:"inconclusive"`
+	Notes        []string            `json:"notes"`
+	Completed    bool                `json:"completed"`
 }
 
 // Worker is the per-shard context handed to Check.Run.
